@@ -32,7 +32,7 @@ manifest = {
     ],
     "checks": [],
     "not_applicable": [],
-    "notes": "Every check: ./check <ID> quick|thorough ; replay with ./check <ID> --replay <file>. Exit 0 held / 1 VIOLATION / 2 infrastructure. VERIF_SEED selects the PRNG stream. Sensitivity of every check was measured with hand-written mutants (mutants/, tools/run_mutants.py) and with 60 changes seeded by sub-agents that saw only the property text (seeded/, DESIGN.md 6.2).",
+    "notes": "Every check: ./check <ID> quick|thorough ; replay with ./check <ID> --replay <file>. Exit 0 held / 1 VIOLATION / 2 infrastructure. VERIF_SEED selects the PRNG stream. Sensitivity of every check was measured with hand-written mutants (mutants/, tools/run_mutants.py) and with 80 changes seeded by sub-agents that saw only the property text (seeded/, DESIGN.md 6.2). Known findings: known_findings.jsonl (13 entries repaired by fix: commits in /repo; one recorded defect, F13 under C17 with three signatures, reported as KNOWN-FINDING lines by ./check C17 - DESIGN.md 5.4).",
 }
 for i in ids:
     if i in CHECKS:
